@@ -51,5 +51,16 @@ Definition isa_tbl : list (N * list N) :=
    (16, [4])%N;
    (17, [4])%N;
    (18, [4])%N].
+(* header names: 1=content-type, 2=soapaction, 3=http, 4=https, 5=x-a, 6=x-b; header values are interned in sorted order, 0 = the value suds sets *)
+Definition header_pool : list (N * list (N * N)) :=
+  [(0, (@nil (N * N)))%N;
+   (1, [(3, 11)])%N;
+   (2, [(5, 4)])%N;
+   (3, [(5, 5); (6, 6)])%N;
+   (4, [(4, 9); (3, 10)])%N;
+   (5, [(1, 8)])%N;
+   (6, [(1, 7); (2, 2)])%N;
+   (7, [(2, 3); (5, 4)])%N;
+   (8, [(1, 12); (2, 1)])%N].
 Definition cls_transport : N := 4%N.
 Definition domains_distinct : bool := true.
